@@ -45,7 +45,19 @@ func minLenFromFacts(g *core.Graph, info *types.Info, n *core.GNode, base ast.Ex
 		}
 		isLen := func(e ast.Expr) bool {
 			c, ok := core.Unparen(e).(*ast.CallExpr)
-			return ok && core.BuiltinName(info, c) == "len" && len(c.Args) == 1 && core.ExprStr(c.Args[0]) == want
+			if ok && core.BuiltinName(info, c) == "len" && len(c.Args) == 1 && core.ExprStr(c.Args[0]) == want {
+				return true
+			}
+			// a local assigned once from len(base): count := len(xs); switch count { case 0: ... }
+			if id, isId := core.Unparen(e).(*ast.Ident); isId && g.Fn != nil {
+				if v, isV := info.Uses[id].(*types.Var); isV && !v.IsField() && !isParamOf(g.Fn.Root(), v) {
+					if d := singleDef(g.Fn.Root(), v); d != nil {
+						dc, isCall := core.Unparen(d).(*ast.CallExpr)
+						return isCall && core.BuiltinName(info, dc) == "len" && len(dc.Args) == 1 && core.ExprStr(dc.Args[0]) == want
+					}
+				}
+			}
+			return false
 		}
 		var cexpr ast.Expr
 		op := be.Op
@@ -564,6 +576,14 @@ func analyzeBounds(p *core.Prog, f *core.Func) []boundsSite {
 			if c, ok := core.Unparen(be.X).(*ast.CallExpr); ok && core.BuiltinName(info, c) == "len" && len(c.Args) == 1 && core.ExprStr(c.Args[0]) == core.ExprStr(base) {
 				if k, ok := core.ConstInt(info, be.Y); ok {
 					return k, true
+				}
+			}
+			// count - 1 with count := len(base)
+			if _, isId := core.Unparen(be.X).(*ast.Ident); isId {
+				if k0, ok := lenMinus(be.X, base); ok {
+					if k, ok := core.ConstInt(info, be.Y); ok && k >= 0 {
+						return k0 + k, true
+					}
 				}
 			}
 		}
